@@ -165,7 +165,10 @@ def judge(idx, seed):
     tmp = tempfile.mkdtemp(prefix="chmpy_c10_")
     tag = f"{e.number}:{e.choice}"
     try:
-        for fn, fmt in (("x.cif", "cif"), ("x.res", "res")):
+        # file names: the format is chosen by the extension, whatever the stem looks like
+        cif_name = rng.choice(["x.cif", "x.cif", "POSCAR_converted.cif", "CONTCAR.final.cif", "poscar.cif", "my.crystal.v2.cif", "res.cif"])
+        res_name = rng.choice(["x.res", "x.res", "CONTCAR_final.res", "POSCAR1.res", "cif.res"])
+        for fn, fmt in ((cif_name, "cif"), (res_name, "res")):
             p = os.path.join(tmp, fn)
             try:
                 c.save(p)
@@ -210,8 +213,27 @@ def judge(idx, seed):
                 r = compare(c, c3, "cifdata")
                 if r:
                     return f"{tag} cif (re-saved loaded crystal): {r}", False
+        # the same in-memory crystal written again after its asymmetric unit was replaced (other labels and occupancies): the file
+        # describes the crystal as it is when it is written
+        if seed % 2 == 0:
+            from chmpy.core.element import Element
+            from chmpy.crystal import AsymmetricUnit
+            au = c.asymmetric_unit
+            zs = [int(z) for z in au.atomic_numbers]
+            c.asymmetric_unit = AsymmetricUnit([Element[z] for z in zs], np.array(au.positions), labels=[Element[z].symbol + str(200 + i) for i, z in enumerate(zs)],
+                                               occupation=np.array([0.75 if i % 2 else 0.5 for i in range(len(zs))]))
+            for fn, fmt in (("z.cif", "cif"), ("z.res", "res")):
+                p = os.path.join(tmp, fn)
+                try:
+                    c.save(p)
+                    c2 = Crystal.load(p)
+                except Exception as ex:  # noqa
+                    return f"{tag} {fmt} (second write, after the asymmetric unit was replaced): raised {type(ex).__name__}: {ex}", False
+                r = compare(c, c2, fmt)
+                if r:
+                    return f"{tag} {fmt} (second write, after the asymmetric unit was replaced): {r}", False
         if len(e.symops) <= 48:
-            p = os.path.join(tmp, "POSCAR")
+            p = os.path.join(tmp, rng.choice(["POSCAR", "POSCAR", "CONTCAR"]))
             try:
                 c.save(p)
                 c2 = Crystal.load(p)
